@@ -165,6 +165,64 @@ func runC19(em *vEmitter, r *vRng) {
 		os.RemoveAll(root)
 		_ = pi
 	}
+	// ---- (1b) a change acknowledged WHILE a hook round is being started ----
+	// many hooks, so that starting a round takes a while; the second notification is sent as soon as the
+	// first hook of the round has logged its start.  Every hook must (also) be started at or after it.
+	nd := 3
+	if vThorough() {
+		nd = 12
+	}
+	for di := 0; di < nd; di++ {
+		root, _ := os.MkdirTemp("", "verif-c19d-")
+		hd := filepath.Join(root, "hooks")
+		os.Mkdir(hd, 0755)
+		log := filepath.Join(root, "log")
+		hooks := []string{"h1"}
+		c19Hook(hd, "h1", 0755, log)
+		for k := 0; k < 40+20*di; k++ {
+			n := fmt.Sprintf("g%03d", k)
+			c19Hook(hd, n, 0755, log)
+			hooks = append(hooks, n)
+		}
+		h := c19Caller(hd, "/store/A", rate)
+		start := time.Now()
+		h.Notify <- true
+		for i := 0; i < 20000 && len(c19ReadLog(log)) == 0; i++ {
+			time.Sleep(100 * time.Microsecond)
+		}
+		startedBefore := len(c19ReadLog(log))
+		second := time.Now()
+		h.Notify <- true
+		time.Sleep(2*rate + 400*time.Millisecond)
+		allLines := c19ReadLog(log)
+		rounds := 0
+		uncovered := 0
+		for _, hk := range hooks {
+			cov := false
+			for _, l := range allLines {
+				f := strings.Split(l, "|")
+				var hs int64
+				fmt.Sscanf(f[0], "%d", &hs)
+				if len(f) > 1 && f[1] == hk && hs >= second.UnixNano() {
+					cov = true
+				}
+				if hk == "h1" && len(f) > 1 && f[1] == "h1" {
+					rounds++
+				}
+			}
+			if !cov {
+				uncovered++
+			}
+		}
+		inWindow := startedBefore < len(hooks)
+		ambiguous := int64(second.Sub(start)/time.Millisecond) > int64(rate/time.Millisecond)-40
+		em.emit(vCase{Prop: "C19", Kind: "timing", Class: fmt.Sprintf("timing/second-change-during-round/in-window=%v", inWindow), Nontrivial: true,
+			Coq: fmt.Sprintf("Timing [HNotify; HNotify; HTimer] %d %s %d", rounds, cB(ambiguous), uncovered),
+			Human: map[string]interface{}{"hooks": len(hooks), "hooks_started_when_second_change_was_sent": startedBefore,
+				"second_after_ms": int64(second.Sub(start) / time.Millisecond), "rounds": rounds, "hooks_not_started_after_second_change": uncovered}})
+		os.RemoveAll(root)
+	}
+
 	// ---- (2) store switch: rounds after NewStore carry the new directory ----
 	{
 		root, _ := os.MkdirTemp("", "verif-c19-")
